@@ -94,6 +94,16 @@ def check(run, ctx):
     arg_ok = any(isinstance(n, ast.Call) and call_name(n) == "Orchestrator" and {k.arg for k in n.keywords} >= {"project_root", "config"} for n in ast.walk(w.node))
     (run.ok(P3, "worker orchestrator", "built from the parent's project_root and config") if arg_ok else run.finding(P3, "_lint_file_worker", "config", "the worker does not reuse the parent's project_root and config", w.loc))
 
+    ldp = repo.func(f"{ORCH}.Orchestrator.lint_directory_parallel")
+    ld = repo.func(f"{ORCH}.Orchestrator.lint_directory")
+    def coll_args(f):
+        c = next((n for n in ast.walk(f.node) if is_call_named(n, "_collect_files_fast")), None)
+        return [ast.unparse(a) for a in c.args] + [f"{k.arg}={ast.unparse(k.value)}" for k in c.keywords] if c is not None else None
+    a1, a2 = coll_args(ld), coll_args(ldp)
+    (run.ok(P3, "directory collection", f"sequential and parallel both collect with ({', '.join(a1 or [])})") if a1 and a1 == a2 else run.finding(P3, "lint_directory_parallel", f"collector-args:{a2}", f"the parallel directory path collects files with {a2} but the sequential one with {a1}: --no-recursive (or any other collection option) yields a different file set under --parallel", ldp.loc))
+    fw = next((n for n in ast.walk(ldp.node) if is_call_named(n, "lint_files_parallel")), None)
+    (run.ok(P3, "lint_directory_parallel", "hands the collected list to lint_files_parallel") if fw is not None and fw.args and isinstance(fw.args[0], ast.Name) else run.finding(P3, "lint_directory_parallel", "forward", "the collected files are not handed to lint_files_parallel unchanged", ldp.loc))
+
     P4 = run.rule("P4", "the worker does not catch the ValueError that signals invalid configuration", floor=1, decides="the exit code is the same with and without --parallel")
     if lf and is_caught(w.node, lf[0], "ValueError"):
         run.finding(P4, "_lint_file_worker", "swallows-ValueError", "`except Exception` around lint_file logs and drops the ValueError that the sequential path lets end the run with exit 2", w.loc)
